@@ -153,23 +153,45 @@ def _append_tuple(pk):
     return None
 
 
+def kafka_names(pk):
+    """discover the local names of the poll loop by their definitions (alpha-insensitive):
+    low/high = targets of the get_watermark_offsets unpack, part = loop variable of the enclosing for,
+    lowest = the name in the batch tuple's 5th position"""
+    app = _append_tuple(pk)
+    if app is None:
+        raise AnalysisError('FromKafkaBatched.poll_kafka: the batch tuple appended to `out` was not found (unrecognised spelling)')
+    wm = None
+    for n in own_nodes(pk.node):
+        if isinstance(n, ast.Assign) and isinstance(n.targets[0], (ast.Tuple, ast.List)) and isinstance(n.value, ast.Call) \
+                and isinstance(n.value.func, ast.Attribute) and n.value.func.attr == 'get_watermark_offsets' \
+                and len(n.targets[0].elts) == 2 and all(isinstance(e, ast.Name) for e in n.targets[0].elts):
+            wm = n
+    if wm is None:
+        raise AnalysisError('FromKafkaBatched.poll_kafka: `low, high = consumer.get_watermark_offsets(...)` not found')
+    low, high = wm.targets[0].elts[0].id, wm.targets[0].elts[1].id
+    loop = next((l for l in own_nodes(pk.node) if isinstance(l, ast.For) and any(x is wm for x in ast.walk(l))), None)
+    part = loop.target.id if loop is not None and isinstance(loop.target, ast.Name) else None
+    elts = app.args[0].elts
+    lowest = elts[4].id if len(elts) == 6 and isinstance(elts[4], ast.Name) else None
+    return {'app': app, 'wm': wm, 'low': low, 'high': high, 'part': part, 'lowest': lowest, 'loop': loop}
+
+
 def check_tuple_layout(ctx, R):
     M = ctx.model
     cls, pk = _fkb(ctx)
     con = ctx.construct(pk)
-    app = _append_tuple(pk)
-    if app is None:
-        raise AnalysisError('FromKafkaBatched.poll_kafka: the batch tuple appended to `out` was not found (unrecognised spelling)')
+    K = kafka_names(pk)
+    app = K['app']
     elts = [src(e) for e in app.args[0].elts]
     gmb = M.function('streamz.sources', 'get_message_batch')
     params = gmb.params()
-    role = {'self.consumer_params': 'kafka_params', 'self.topic': 'topic', 'partition': 'partition', 'self.keys': 'keys',
-            'lowest': 'low'}
+    role = {'self.consumer_params': 'kafka_params', 'self.topic': 'topic', K['part']: 'partition', 'self.keys': 'keys',
+            K['lowest']: 'low'}
     got = []
     for e in elts:
         if e in role:
             got.append(role[e])
-        elif e.replace(' ', '') in ('high-1',):
+        elif e.replace(' ', '') in ('%s-1' % K['high'],):
             got.append('high')
         else:
             got.append('?' + e)
@@ -213,74 +235,79 @@ def check_tuple_layout(ctx, R):
 def check_offset_algebra(ctx, R):
     cls, pk = _fkb(ctx)
     con = ctx.construct(pk)
-    app = _append_tuple(pk)
-    if app is None:
-        raise AnalysisError('FromKafkaBatched.poll_kafka: batch tuple not found')
+    K = kafka_names(pk)
+    app, LOW, HIGH, PART, LOWEST = K['app'], K['low'], K['high'], K['part'], K['lowest']
     defs = local_defs(pk.node)
-    # lowest
-    lows = defs.get('lowest', [])
-    okl = len(lows) == 1 and lows[0] is not None and norm(lows[0], {k: v for k, v in defs.items() if k == 'current_position'}) \
-        .replace(' ', '') in ('max(low,self.positions[partition])', 'max(self.positions[partition],low)')
+    if LOWEST is None or PART is None:
+        raise AnalysisError('FromKafkaBatched.poll_kafka: cannot identify the first-offset / partition variables (unrecognised spelling)')
+    cursor = 'self.positions[%s]' % PART
+
+    def N(node):
+        """normal form with the discovered names replaced by roles"""
+        d = {k: v for k, v in defs.items() if k not in (LOW, HIGH, PART, LOWEST) and len(v) == 1 and v[0] is not None
+             and isinstance(v[0], ast.Subscript) and src(v[0]) == cursor}
+        t = norm(node, d).replace(' ', '')
+        import re
+        for name, role_ in ((LOWEST, 'LOWEST'), (HIGH, 'HIGH'), (LOW, 'LOW')):
+            t = re.sub(r'(?<![\w.])' + re.escape(name) + r'(?![\w])', role_, t)
+        return t.replace(cursor.replace(' ', ''), 'CURSOR').replace('self.max_batch_size', 'MAX')
+
+    lows = defs.get(LOWEST, [])
+    okl = len(lows) == 1 and lows[0] is not None and N(lows[0]) in ('max(CURSOR,LOW)', 'max(LOW,CURSOR)')
     R.ob('OFFSET-ALGEBRA', con, 'lowest', okl,
          'the first offset of a batch is not max(cursor, low watermark): %s' % [src(v) for v in lows if v is not None],
          ctx.where(pk, lows[0].lineno if lows and lows[0] is not None else pk.node.lineno))
-    # the emission guard and the block
     guard = None
     for n in own_nodes(pk.node):
-        if isinstance(n, ast.If) and any(x is app for s in n.body for x in ast.walk(s)):
+        if isinstance(n, ast.If) and any(x is app for s_ in n.body for x in ast.walk(s_)):
             guard = n
-    okg = guard is not None and norm(guard.test, {}).replace(' ', '') == 'lowest<high'
+    okg = guard is not None and N(guard.test) == 'LOWEST<HIGH'
     R.ob('OFFSET-ALGEBRA', con, 'guard', okg,
          'a batch is emitted under %s; expected the strict high > lowest (no empty / negative ranges)' % (src(guard.test) if guard else None),
          ctx.where(pk, guard.lineno if guard else app.lineno))
-    # cursor advances to the exclusive end in the same block
-    adv = [s for s in (guard.body if guard else []) if isinstance(s, ast.Assign) and src(s.targets[0]) == 'self.positions[partition]']
-    oka = len(adv) == 1 and src(adv[0].value) == 'high'
+    adv = [s_ for s_ in (guard.body if guard else []) if isinstance(s_, ast.Assign) and src(s_.targets[0]) == cursor]
+    oka = len(adv) == 1 and src(adv[0].value) == HIGH
     R.ob('OFFSET-ALGEBRA', con, 'cursor-advance', oka,
-         'the cursor is not advanced to `high` in the block that hands the range out (ranges would overlap or leave gaps)',
+         'the cursor is not advanced to the exclusive end in the block that hands the range out (ranges would overlap or leave gaps)',
          ctx.where(pk, adv[0].lineno if adv else app.lineno))
-    last = src(app.args[0].elts[-1]).replace(' ', '') if app.args[0].elts else ''
-    first = src(app.args[0].elts[-2]).replace(' ', '') if len(app.args[0].elts) > 1 else ''
-    R.ob('OFFSET-ALGEBRA', con, 'range', last == 'high-1' and first == 'lowest',
+    last = N(app.args[0].elts[-1]) if app.args[0].elts else ''
+    first = N(app.args[0].elts[-2]) if len(app.args[0].elts) > 1 else ''
+    R.ob('OFFSET-ALGEBRA', con, 'range', last == '(HIGH-1)' and first == 'LOWEST',
          'the range handed out is [%s, %s]; expected [lowest, high - 1]' % (first, last), ctx.where(pk, app.lineno))
-    # definitions of high: watermark unpack + clamp only
     high_defs = []
     for n in own_nodes(pk.node):
         if isinstance(n, ast.Assign):
             for t in n.targets:
                 for e in ([t] if not isinstance(t, (ast.Tuple, ast.List)) else t.elts):
-                    if isinstance(e, ast.Name) and e.id == 'high':
+                    if isinstance(e, ast.Name) and e.id == HIGH:
                         high_defs.append(n)
     okh, detail = True, ''
     clamp = 0
     for n in high_defs:
+        if n is K['wm']:
+            continue
         if isinstance(n.targets[0], (ast.Tuple, ast.List)):
-            if not (isinstance(n.value, ast.Call) and isinstance(n.value.func, ast.Attribute) and n.value.func.attr == 'get_watermark_offsets'):
-                okh, detail = False, 'high is unpacked from %s' % src(n.value)
-            elif [src(e) for e in n.targets[0].elts] != ['low', 'high']:
-                okh, detail = False, 'watermarks unpacked as %s' % src(n.targets[0])
+            okh, detail = False, 'high is unpacked from %s' % src(n.value)
+            continue
+        v = N(n.value)
+        if v in ('(LOWEST+MAX)', '(MAX+LOWEST)'):
+            g = None
+            for x in own_nodes(pk.node):
+                if isinstance(x, ast.If) and any(y is n for y in x.body):
+                    g = x
+            gt = N(g.test) if g is not None else None
+            if gt not in ('(LOWEST+MAX)<HIGH', '(MAX+LOWEST)<HIGH'):
+                okh, detail = False, 'the clamp is applied under %s' % (src(g.test) if g else 'no guard')
+            clamp += 1
+        elif v in ('min(HIGH,(LOWEST+MAX))', 'min((LOWEST+MAX),HIGH)', 'min((MAX+LOWEST),HIGH)', 'min(HIGH,(MAX+LOWEST))'):
+            clamp += 1
         else:
-            v = norm(n.value, {}).replace(' ', '')
-            if v in ('(lowest+self.max_batch_size)', '(self.max_batch_size+lowest)'):
-                g = None
-                for x in own_nodes(pk.node):
-                    if isinstance(x, ast.If) and any(y is n for y in x.body):
-                        g = x
-                gt = norm(g.test, {}).replace(' ', '') if g is not None else None
-                if gt not in ('(lowest+self.max_batch_size)<high', '(self.max_batch_size+lowest)<high'):
-                    okh, detail = False, 'the clamp is applied under %s' % (src(g.test) if g else 'no guard')
-                clamp += 1
-            elif v in ('min(high,(lowest+self.max_batch_size))', 'min((lowest+self.max_batch_size),high)',
-                       'min((self.max_batch_size+lowest),high)', 'min(high,(self.max_batch_size+lowest))'):
-                clamp += 1
-            else:
-                okh, detail = False, 'high is re-defined as %s' % src(n.value)
+            okh, detail = False, 'high is re-defined as %s' % src(n.value)
     if clamp != 1 and okh:
         okh, detail = False, 'expected exactly one clamp of high to lowest + max_batch_size, found %d' % clamp
     R.ob('OFFSET-ALGEBRA', con, 'high', okh, detail, ctx.where(pk, high_defs[0].lineno if high_defs else pk.node.lineno))
-    # order inside one partition iteration: watermark, lowest, clamp, guard
     if guard is not None and lows and lows[0] is not None:
-        cl = [n.lineno for n in high_defs if not isinstance(n.targets[0], (ast.Tuple, ast.List))]
+        cl = [n.lineno for n in high_defs if n is not K['wm']]
         oko = lows[0].lineno < min(cl or [guard.lineno]) <= guard.lineno
         R.ob('OFFSET-ALGEBRA', con, 'order', oko, 'lowest / clamp / guard are not evaluated in that order', ctx.where(pk, guard.lineno))
 
